@@ -19,6 +19,10 @@
                  = "parent"  the pinned test: string prefix against
                              dirname(docroot), i.e. everything below the
                              PARENT of the root passes;
+                 = "normpath" seeded C16-8: normpath() of the relative path,
+                             refusal when its first component is "..", then
+                             join with the docroot: an ABSOLUTE decoded path
+                             ("/%2F<abs>") is never refused;
      Probe       = "exists"  os.path.exists/isfile/isdir (intended: a name that
                              cannot exist is simply not found);
                  = "stat"    one os.stat() in try/except OSError: a NUL in the
@@ -59,16 +63,30 @@ Parsed(mount, toks) ==
    through iff  path = sanitised  or  quote(path) = sanitised.                *)
 NoDots(toks)       == \A i \in 1..Len(toks) : toks[i] \notin {"dd", "d"}
 NoInnerEmpty(toks) == \A i \in 1..Len(toks) : toks[i] = "e" => i = Len(toks)
-RawIsEscaped(t)    == t \notin {"bs", "e1", "es", "xff"}      \* quote(unquote(t)) = t
-QuotedIsEscaped(t) == t \notin {"e2", "e1", "es", "xff", "n0", "fn", "nf", "dn"}   \* quote(unquote(t)) = quote(t)
+RawIsEscaped(t)    == t \notin {"bs", "e1", "es", "xff", "ap", "apf"}      \* quote(unquote(t)) = t
+QuotedIsEscaped(t) == t \notin {"e2", "e1", "es", "xff", "n0", "fn", "nf", "dn", "ap", "apf", "ap5"}   \* quote(unquote(t)) = quote(t)
 GuardPass(toks) ==
   /\ NoDots(toks) /\ NoInnerEmpty(toks)
   /\ \/ \A i \in 1..Len(toks) : RawIsEscaped(toks[i])
      \/ \A i \in 1..Len(toks) : QuotedIsEscaped(toks[i])
 
-Contained(pos) ==
+Contained(pos, abs) ==
   IF Containment = "root" THEN Inside(pos)
+  ELSE IF Containment = "normpath" THEN abs \/ Inside(pos)
   ELSE pos.above = 0 /\ Len(pos.names) >= 1 /\ pos.names[1] = "p"
+
+(* path.strip("/") runs before unquote(): when the first non-empty segment starts
+   with an encoded slash, the decoded path is ABSOLUTE and os.path.join(docroot,
+   path) discards the docroot: the walk starts at that absolute place, here the
+   root's parent G/p.                                                          *)
+ParentPos == [above |-> 0, names |-> <<"p">>]
+Lead(toks) == IF \E i \in 1..Len(toks) : toks[i] # "e"
+              THEN CHOOSE i \in 1..Len(toks) : toks[i] # "e" /\ \A j \in 1..(i - 1) : toks[j] = "e"
+              ELSE 0
+IsAbs(toks) == Lead(toks) > 0 /\ toks[Lead(toks)] \in AbsTokens
+Location(toks) ==
+  IF IsAbs(toks) THEN WalkFrom(ParentPos, Segs(SubSeq(toks, Lead(toks) + 1, Len(toks))), FALSE)
+  ELSE FsWalk(toks)
 
 (* the location string still carries a NUL after the lexical normalisation *)
 HasNul(pos) == \E i \in 1..Len(pos.names) : pos.names[i] \in NulNames
@@ -78,9 +96,9 @@ HasNul(pos) == \E i \in 1..Len(pos.names) : pos.names[i] \in NulNames
    swallow OSError and ValueError); os.stat() raises ValueError("embedded null
    byte"), which `except OSError` does not catch: the handler dies, 500.       *)
 StaticAnswer(toks) ==
-  LET pos  == FsWalk(toks)
+  LET pos  == Location(toks)
       node == FS(pos)
-  IN IF ~Contained(pos) THEN <<404, "other">>
+  IN IF ~Contained(pos, IsAbs(toks)) THEN <<404, "other">>
      ELSE IF Probe = "stat" /\ HasNul(pos) THEN <<500, "other">>
      ELSE IF node.kind = "missing" THEN <<404, "other">>
      ELSE <<200, node.id>>
